@@ -497,6 +497,9 @@ func init() {
 			u.Only = "C03."
 			u.Desc = "the sibling-name families of C14 (names with %, white space, separators, suffix look-alikes) seen through C03: with one of the keys carrying a string instead of an integer the document is rejected, whichever key it is"
 			properties["C03"].Units = append(properties["C03"].Units, u)
+			u.Only = "C04."
+			u.Desc = "the sibling-name families of C14 seen through C04: every name is required; with all keys present the document is accepted, with any one of them missing it is rejected, whatever characters the names contain (%, white space, separators, suffix look-alikes)"
+			properties["C04"].Units = append(properties["C04"].Units, u)
 		}
 	}
 	for _, u := range properties["C12"].Units {
